@@ -175,12 +175,20 @@ def wwm(env, dirs, winds):
         _winds(env, out, info["u"], info["v"], "wwm")
 
 
-@harness(P, quick=grid(nd=[4]), thorough=grid(nd=[3, 6]))
-def era5(env, nd):
+@harness(P, quick=grid(nd=[4], via=["from_era5", "read_dataset"]), thorough=grid(nd=[3, 6], via=["from_era5", "read_dataset"]))
+def era5(env, nd, via):
     from wavespectra.input.era5 import from_era5, DEFAULT_FREQS, DEFAULT_DIRS
-    ds, info = N.era5(env, nd=nd)
+    from wavespectra.input.dataset import read_dataset
+    ds, info = N.era5(env, nd=nd, native_names=(via == "read_dataset"))
     freqs, dirs = list(DEFAULT_FREQS[:3]), list(DEFAULT_DIRS[:nd])
-    out = from_era5(ds, freqs=freqs, dirs=dirs)
+    if via == "read_dataset":
+        # the dispatcher must recognise the native ERA5 names (frequency, direction, d2fd)
+        out = read_dataset(ds, freqs=freqs, dirs=dirs)
+        env.claim("efth" in out and {"freq", "dir"} <= set(out["efth"].dims if "efth" in out else ()), "read_dataset identifies the ERA5 layout and returns efth(freq, dir)", {"variables": sorted(map(str, out.variables))})
+        if "efth" not in out or not {"freq", "dir"} <= set(out["efth"].dims):
+            return
+    else:
+        out = from_era5(ds, freqs=freqs, dirs=dirs)
     o = out.efth.transpose("time", "lat", "lon", "freq", "dir")
     env.claim(list(map(float, o.freq.values)) == list(map(float, freqs)) and list(map(float, o.dir.values)) == list(map(float, dirs)), "era5: requested spectral coordinates")
     x = info["x"]
@@ -204,9 +212,14 @@ def _pow10(x):
 @harness(P, quick=grid(directional=[True, False], alt=[False]), thorough=grid(directional=[True, False], alt=[True]))
 def ndbc(env, directional, alt):
     from wavespectra.input.ndbc import from_ndbc
+    from wavespectra.input.dataset import read_dataset
     ds, info = N.ndbc(env, nt=1, directional=directional, alt_names=alt)
     dd = 60.0
     out = from_ndbc(ds, directional=True, dd=dd)
+    if not alt:
+        via = read_dataset(ds, directional=True, dd=dd)
+        env.claim(set(via.efth.dims) == set(out.efth.dims), "read_dataset identifies the NDBC layout")
+        env.close(via.efth.transpose(*out.efth.dims).values, out.efth.values, "read_dataset == from_ndbc", rel=0.0, abs_=0.0, ctol=1e-12, catol=0.0)
     ef = info["ef"]
     if not directional:
         env.claim("dir" not in out.efth.dims, "ndbc without directional moments is returned as 1D")
